@@ -36,8 +36,8 @@ func VerifC01Wire() { verifC01Wire(12, 17) }
 
 // VerifC01WireLong is the thorough variant.
 //
-//verif:harness name=H01b-wire-long tier=thorough bounds="as H01b-wire with 12..21 bytes" reach=answered,dropped,error-response maxpaths=5000000 fanout=70
-func VerifC01WireLong() { verifC01Wire(12, 21) }
+//verif:harness name=H01b-wire-long tier=thorough bounds="as H01b-wire with 12..19 bytes" reach=answered,dropped,error-response maxpaths=5000000 fanout=70
+func VerifC01WireLong() { verifC01Wire(12, 19) }
 
 func verifC01Wire(lo, hi int) {
 	n := lo + verifChoice(hi-lo+1)
@@ -86,11 +86,11 @@ func verifC01Wire(lo, hi int) {
 //verif:assume sync.Pool hands the most recently released buffer back; worker pool inline
 func VerifC01TCP() { verifC01TCP([]int{12, 15}) }
 
-// VerifC01TCPLong is VerifC01TCP over every length 12..19.
+// VerifC01TCPLong is VerifC01TCP over every length 12..18.
 //
-//verif:harness name=H01f-tcp-long tier=thorough bounds="as H01f-tcp with every length 12..19" reach=answered,dropped maxpaths=5000000 fanout=70
+//verif:harness name=H01f-tcp-long tier=thorough bounds="as H01f-tcp with every length 12..18" reach=answered,dropped maxpaths=5000000 fanout=70
 //verif:assume sync.Pool hands the most recently released buffer back; worker pool inline
-func VerifC01TCPLong() { verifC01TCP([]int{12, 13, 14, 15, 16, 17, 18, 19}) }
+func VerifC01TCPLong() { verifC01TCP([]int{12, 13, 14, 15, 16, 17, 18}) }
 
 func verifC01TCP(lens []int) {
 	verifPoolMode(1)
